@@ -109,6 +109,15 @@ def info_valid(ctx, rule="INFO-VALID"):
             if re.search(r"Iterator>?::any$", nme) and any("p1.enum_values" in " ".join(a) and "p2@Str.0" in " ".join(a) for a in eqs):
                 ok = has_fact(S, L.call_block, r"is_empty\(&\*p1\.enum_values\)", False)
     ctx.check(ok, rule, "enumeration membership", "", "is_valid_value does not test enumeration membership (when an enumeration is set)", f.loc(), fn=f.name, key=rule + "|enum")
+    # a column may declare both a category and an enumeration: each is consulted whatever the other says
+    for c in en:
+        dep = [e[:60] for (e, tr, g) in S.bool_facts_at(c[0]) if re.search(r"discr\(\*?p1\.category\)", e) and tr == ("==", 0)]
+        ctx.check(not dep, rule, "enumeration consulted whatever the category", "", "is_valid_value tests the enumeration only when no category is declared (%s): a column with both accepts "
+                  "values outside its enumeration" % dep, f.loc(), fn=f.name, key=rule + "|enum-independent")
+    for c in cv:
+        dep = [e[:60] for (e, tr, g) in S.bool_facts_at(c[0]) if "enum_values" in e and tr is True]
+        ctx.check(not dep, rule, "category consulted whatever the enumeration", "", "is_valid_value runs category.validate only when no enumeration is declared (%s)" % dep, f.loc(), fn=f.name,
+                  key=rule + "|category-independent")
     # cross-type arms are constant false: Int in Str column, Str in Int column
     ret_locals = {0}
     grew = True
@@ -289,6 +298,29 @@ def cat_arms(ctx, rule="CAT-ARMS"):
             skipped = [b for b in accepting if stem and b in cfg.reachable(f, split[0], avoid=stem)]
             ctx.check(bool(stem) and not skipped, rule, "Cabinet: accepted only after the stem-length test", "", "Category::Cabinet can accept a name on a path that skips the `stem.len() <= 8` test",
                       f.loc(), fn=f.name, key="%s|cabinet-conj" % rule)
+    # polarity of the parse tests: a value is valid when it PARSES (Result::is_ok), in the arm itself or in the per-part closures
+    pol = sorted({cname(prog, t).rsplit("::", 1)[-1] for u in prog.unit(f) for b, t in u.calls() if re.search(r"Result::<T, E>::(is_ok|is_err|is_ok_and|is_err_and)$", cname(prog, t))})
+    ctx.check(pol == ["is_ok"], rule, "parse tests accept what parses", str(pol), "Category::validate judges parse results with %s: Integer, DoubleInteger, GUID, Version and Language accept a string exactly when "
+              "its (parts) parse" % pol, f.loc(), fn=f.name, key="%s|parse-polarity" % rule)
+    # Cabinet (rsplitn spelling): the 8 limit is on piece 0 (stem), the 3 limit on piece 1 (extension)
+    tgc = arms.get("Cabinet")
+    if tgc is not None:
+        blksc = {b for b in dom if tgc in dom[b]}
+        if any(n_.endswith("<impl str>::rsplitn") for (b, n_, a_, t_) in symcalls(prog, f, S) if b in blksc):
+            lim = {}
+            for b in blksc:
+                for st in f.blocks[b]["stmts"]:
+                    r_ = st["rhs"]
+                    if r_["rv"] == "bin" and r_["op"] in ("Le", "Lt", "Gt", "Ge"):
+                        vals = [S.val(o) for o in r_["ops"]]
+                        for k_ in ("c:8", "c:3"):
+                            if k_ in vals:
+                                other_v = [v for v in vals if v != k_][0]
+                                mi = re.search(r"call@(\d+):<std::vec::Vec<T, A> as std::ops::Index<I>>::index", other_v)
+                                ix = S.val(f.blocks[int(mi.group(1))]["term"]["args"][1]) if mi else ""
+                                lim[k_] = ix[2:] if re.fullmatch(r"c:\d+", ix) else None
+            ctx.check(lim.get("c:8") == "0" and lim.get("c:3") == "1", rule, "Cabinet: 8 for the stem, 3 for the extension", str(lim), "Category::Cabinet applies its length limits to pieces %s "
+                      "(expected limit 8 on piece 0, limit 3 on piece 1)" % lim, f.loc(), fn=f.name, key="%s|cabinet-pieces" % rule)
     # categories without a grammar in this library accept everything (the default arm is `true`)
     Stab, _d = tables.switch_table(prog, f)
     ctx.check((Stab or {}).get("otherwise") == ("int", 1), rule, "categories without a grammar accept every string", str((Stab or {}).get("otherwise")),
